@@ -306,6 +306,9 @@ class Interp:
             return None
         if c.op in ("==", "!=", "<", "<=", ">", ">=") and all(is_num(a) for a in c.args):
             diff = to_rf(c.args[0]) - to_rf(c.args[1])
+            if not diff.is_const() and diff.atoms() == {"EPSILON"}:
+                # the machine epsilon is a known positive constant (2**-52): comparisons of constants with it are decided
+                diff = diff.subst({"EPSILON": Fraction(1, 2 ** 52)})
             if diff.is_const():
                 v = diff.const_value()
                 return {"==": v == 0, "!=": v != 0, "<": v < 0, "<=": v <= 0, ">": v > 0, ">=": v >= 0}[c.op]
